@@ -853,6 +853,9 @@ func (m *model) conv(v mval, dst reflect.Value) error {
 func (m *model) assign(parent *mref, key string, dst reflect.Value, v mval) {
 	tmp := newVar(dst)
 	if err := m.conv(v, tmp); err != nil {
+		if m.df.ptrAllocOnFail && dst.Kind() == reflect.Ptr && dst.IsNil() {
+			dst.Set(reflect.New(dst.Type().Elem()))
+		}
 		throwJS()
 	}
 	m.unregister(parent, key, dst)
@@ -967,10 +970,13 @@ func (m *model) set(r *mref, key string, v mval) {
 		if !ok {
 			throwJS()
 		}
-		ev := m.exportVal(v)
+		if v.k == mRef && v.ref.expPtr && !v.ref.exp.IsValid() {
+			skip("Export of an element reference")
+		}
 		if i >= r.loc.Len() {
 			m.grow(r, i+1)
 		}
+		ev := m.exportVal(v) // the value is exported after the slice was grown
 		if ev.IsValid() {
 			r.loc.Index(i).Set(ev)
 		} else {
@@ -1300,7 +1306,7 @@ func (m *model) dumpVal(v mval, d int) string {
 	case mFn:
 		return "fn"
 	case mRef:
-		return viewer{m.mapper}.view(v.ref.loc, d)
+		return m.dumpRef(v.ref, d)
 	case mLit:
 		if d > viewDepth {
 			return "…"
@@ -1337,119 +1343,112 @@ func (m *model) dumpVal(v mval, d int) string {
 
 // jsonView is D(JSON.parse(JSON.stringify(x))) for the wrapper of v: functions and undefined vanish from
 // objects, non-finite numbers become null, -0 becomes 0.
-type jsonCycle struct{}
-
-func (m *model) jsonView(v reflect.Value, d int) string {
-	if !v.IsValid() {
-		return "null"
+// dumpRef is D(wrapper): like the script function it reads every element through the wrapper ([[Get]]), so
+// nested element wrappers get registered exactly as the implementation caches them.
+func (m *model) dumpRef(r *mref, d int) string {
+	if d > viewDepth {
+		return "…"
 	}
-	if d > 64 {
-		panic(jsonCycle{}) // a cycle through maps / pointers / slices: JSON.stringify throws a TypeError
-	}
-	switch v.Kind() {
-	case reflect.Interface, reflect.Ptr:
-		if v.IsNil() {
-			return "null"
-		}
-		return m.jsonView(v.Elem(), d)
-	case reflect.Float32, reflect.Float64:
-		f := v.Float()
-		if math.IsNaN(f) || math.IsInf(f, 0) {
-			return "null"
-		}
-		if f == 0 {
-			return "0"
-		}
-		return jsNum(f)
-	case reflect.Func:
-		return "" // omitted
-	case reflect.Slice, reflect.Array:
-		var b strings.Builder
+	var b strings.Builder
+	if m.isArrayLike(r) {
 		b.WriteByte('[')
-		for i := 0; i < v.Len(); i++ {
+		for i := 0; i < r.loc.Len(); i++ {
 			if i > 0 {
 				b.WriteByte(',')
 			}
-			e := m.jsonView(v.Index(i), d+1)
-			if e == "" {
-				e = "null"
-			}
-			b.WriteString(e)
+			b.WriteString(m.dumpVal(m.get(r, strconv.Itoa(i)), d+1))
 		}
 		b.WriteByte(']')
 		return b.String()
-	case reflect.Map:
-		if v.Type() == typIfMap && v.IsNil() {
-			return "null"
-		}
-		type kv struct{ k, v string }
-		var items []kv
-		it := v.MapRange()
-		for it.Next() {
-			if e := m.jsonView(it.Value(), d+1); e != "" {
-				items = append(items, kv{fmt.Sprintf("%v", it.Key()), e})
-			}
-		}
-		sort.Slice(items, func(i, j int) bool { return items[i].k < items[j].k })
-		var b strings.Builder
-		b.WriteByte('{')
-		for i, it := range items {
-			if i > 0 {
-				b.WriteByte(',')
-			}
-			b.WriteString(it.k + ":" + it.v)
-		}
-		b.WriteByte('}')
-		return b.String()
-	case reflect.Struct:
-		type kv struct{ k, v string }
-		var items []kv
-		for _, f := range structFields(v.Type(), m.mapper) {
-			fv, ok := fieldByIndexSafe(v, f.index)
-			if !ok {
-				skip("nil embedded pointer")
-			}
-			if e := m.jsonView(fv, d+1); e != "" {
-				items = append(items, kv{f.name, e})
-			}
-		}
-		sort.Slice(items, func(i, j int) bool { return items[i].k < items[j].k })
-		var b strings.Builder
-		b.WriteByte('{')
-		for i, it := range items {
-			if i > 0 {
-				b.WriteByte(',')
-			}
-			b.WriteString(it.k + ":" + it.v)
-		}
-		b.WriteByte('}')
-		return b.String()
 	}
-	return viewer{m.mapper}.view(v, d)
+	if r.class() == wOther {
+		return viewer{m.mapper}.view(r.loc, d)
+	}
+	b.WriteByte('{')
+	for i, k := range m.keys(r) {
+		if i > 0 {
+			b.WriteByte(',')
+		}
+		b.WriteString(k + ":" + m.dumpVal(m.get(r, k), d+1))
+	}
+	b.WriteByte('}')
+	return b.String()
+}
+
+// jsonVal is D(JSON.parse(JSON.stringify(x))): functions and undefined vanish from objects (null in arrays),
+// non-finite numbers become null, -0 becomes 0.
+func (m *model) jsonVal(v mval, d int) (string, bool) {
+	switch v.k {
+	case mUndef, mFn:
+		return "", false
+	case mNum:
+		if math.IsNaN(v.n) || math.IsInf(v.n, 0) {
+			return "null", true
+		}
+		if v.n == 0 {
+			return "0", true
+		}
+		return jsNum(v.n), true
+	case mRef:
+		r := v.ref
+		if d > viewDepth {
+			return "…", true
+		}
+		var b strings.Builder
+		if m.isArrayLike(r) {
+			b.WriteByte('[')
+			for i := 0; i < r.loc.Len(); i++ {
+				if i > 0 {
+					b.WriteByte(',')
+				}
+				e, ok := m.jsonVal(m.get(r, strconv.Itoa(i)), d+1)
+				if !ok {
+					e = "null"
+				}
+				b.WriteString(e)
+			}
+			b.WriteByte(']')
+			return b.String(), true
+		}
+		if r.class() == wOther {
+			skip("JSON of an opaque host object")
+		}
+		b.WriteByte('{')
+		n := 0
+		for _, k := range m.keys(r) {
+			e, ok := m.jsonVal(m.get(r, k), d+1)
+			if !ok {
+				continue
+			}
+			if n > 0 {
+				b.WriteByte(',')
+			}
+			n++
+			b.WriteString(k + ":" + e)
+		}
+		b.WriteByte('}')
+		return b.String(), true
+	}
+	return m.dumpVal(v, d), true
 }
 
 // full is F(x) of the prelude for a model value.
-func (m *model) full(v mval, probes []string) string {
+func (m *model) full(v mval, probes []string, noJSON bool) string {
 	if v.k != mRef {
 		return m.dumpVal(v, 0)
 	}
 	r := v.ref
 	var b strings.Builder
-	view := viewer{m.mapper}.view(r.loc, 0)
+	view := m.dumpRef(r, 0)
 	b.WriteString(view)
 	ks := strings.Join(m.keys(r), ",")
 	b.WriteString("|k=" + ks + "|f=" + ks)
-	b.WriteString("|j=" + func() (j string) {
-		defer func() {
-			if x := recover(); x != nil {
-				if _, ok := x.(jsonCycle); !ok {
-					panic(x)
-				}
-				j = "!TypeError"
-			}
-		}()
-		return m.jsonView(r.loc, 0)
-	}())
+	if noJSON {
+		b.WriteString("|j=cyc")
+	} else {
+		j, _ := m.jsonVal(v, 0)
+		b.WriteString("|j=" + j)
+	}
 	b.WriteString("|s=" + view)
 	b.WriteString("|p=")
 	for _, p := range probes {
